@@ -127,13 +127,16 @@ def _anchors():
 def owners(rel: str, fname: str) -> Set[str]:
     if rel.endswith('_test.py') or '/testing/' in rel or '_pb2' in rel or '/contrib/' in rel or '/interop/' in rel or '/experiments/' in rel:
         return set()
+    own = {pid for a, pid in _anchors() if (rel == a if a.endswith('.py') else rel.startswith(a.rstrip('/') + '/'))}
+    own.discard('C15')
     for rx, pid in HINTS:
         if _re.search(rx, fname):
             if rel.startswith(SCOPES.get(pid, ())):
-                return {pid} | set(FILE_EXTRA.get(rel, ()))
+                # a small single-purpose file (anchored by at most two properties) is co-owned by them; in a multi-purpose file
+                # (simulator.py, circuit.py, ...) only the behaviour the function name points at counts
+                co = own if len(own) <= 2 else set()
+                return {pid} | co | set(FILE_EXTRA.get(rel, ()))
             break
-    own = {pid for a, pid in _anchors() if (rel == a if a.endswith('.py') else rel.startswith(a.rstrip('/') + '/'))}
-    own.discard('C15')
     if not own:
         for pre, pid in DIR_DEFAULT:
             if rel.startswith(pre):
@@ -404,6 +407,39 @@ def _is_set_expr(e, setloc) -> bool:
     return False
 
 
+def _keys_values_sources(fn, zcall):
+    """(keys receiver, values receiver) if one argument of the zip derives from `<A>.keys` / `<A>.keys()` and another from `.values()` of a different receiver."""
+    from ..flow import name_deps
+
+    def src(x):
+        if isinstance(x, ast.Call) and isinstance(x.func, ast.Attribute) and x.func.attr == 'values' and not x.args:
+            return {'V:' + ast.unparse(x.func.value)}
+        if isinstance(x, ast.Call) and isinstance(x.func, ast.Attribute) and x.func.attr == 'keys' and not x.args:
+            return {'K:' + ast.unparse(x.func.value)}
+        if isinstance(x, ast.Attribute) and x.attr == 'keys' and isinstance(x.ctx, ast.Load):
+            return {'K:' + ast.unparse(x.value)}
+        return None
+    dep = name_deps(fn, {}, source_of=src)
+
+    def labels(e):
+        out = set()
+        for x in ast.walk(e):
+            out |= src(x) or set()
+            if isinstance(x, ast.Name):
+                out |= dep.get(x.id, set())
+        return out
+    ks, vs = set(), set()
+    for a in zcall.args:
+        ls = labels(a.value if isinstance(a, ast.Starred) else a)
+        ks |= {l[2:] for l in ls if l.startswith('K:')}
+        vs |= {l[2:] for l in ls if l.startswith('V:')}
+    for k in sorted(ks):
+        for v in sorted(vs):
+            if v != k and not v.startswith(k + '.') and not k.startswith(v + '.'):
+                return k, v
+    return None
+
+
 def unordered_pairing_rule(ctx, rid: str, pid: str, floor: int = 5):
     repo = ctx.repo
     ctx.rule(rid, 'positional pairing needs one stable order: no argument of zip() and no subject of enumerate() is a set (set/frozenset value, set-typed local or parameter, all_qubits()), '
@@ -419,9 +455,16 @@ def unordered_pairing_rule(ctx, rid: str, pid: str, floor: int = 5):
                 bad = [a for a in c.args if _is_set_expr(a, setloc)]
                 n += 1
                 ok = not bad
-                ctx.ob(rid, f'{m.name}.{fn.name}:zip@{_pos_key(fn, c, "zip")}', ok, '' if ok else
-                       f'`{ast.unparse(c)[:90]}` pairs by position with `{ast.unparse(bad[0])[:40]}`, which is a set: its iteration order is unrelated to the order of the other argument',
-                       m.rel, c.lineno)
+                msg = '' if ok else (f'`{ast.unparse(c)[:90]}` pairs by position with `{ast.unparse(bad[0])[:40]}`, which is a set: its iteration order is unrelated to the order of the '
+                                     'other argument')
+                if ok:
+                    # keys of one mapping paired with the values of *other* mappings: the i-th key and the i-th value belong together only if all of them list their keys alike
+                    kv = _keys_values_sources(fn, c)
+                    if kv is not None:
+                        ok = False
+                        msg = (f'`{ast.unparse(c)[:90]}` pairs the keys of `{kv[0]}` with values taken by position from `{kv[1]}`: a mapping that lists the same keys in another order '
+                               'gets its values filed under the wrong keys')
+                ctx.ob(rid, f'{m.name}.{fn.name}:zip@{_pos_key(fn, c, "zip")}', ok, msg, m.rel, c.lineno)
         for lp in ast.walk(fn):
             it = None
             if isinstance(lp, (ast.For, ast.comprehension)):
@@ -617,6 +660,84 @@ def optional_argument_purity_rule(ctx, rid: str, pid: str, floor: int = 0):
     return n
 
 
+def single_use_generator_rule(ctx, rid: str, pid: str, floor: int = 0):
+    repo = ctx.repo
+    ctx.rule(rid, 'a generator is walked once: a local bound to a generator expression, or to the result of a repository function that contains `yield` (and is not wrapped in '
+             'list / tuple / sorted / set / dict / frozenset), is used at most once along any one execution (uses in mutually exclusive branches aside) - the second consumer '
+             '(an inverse, a second loop, a second call) silently gets nothing', floor=floor, style='TNT')
+    n = 0
+    for m, ci, fn in _functions(repo, pid):
+        cands = {}
+        for a in ast.walk(fn):
+            if isinstance(a, ast.Assign) and len(a.targets) == 1 and isinstance(a.targets[0], ast.Name):
+                v = a.value
+                gen = isinstance(v, ast.GeneratorExp)
+                if isinstance(v, ast.Call) and not gen:
+                    d = dotted(v.func)
+                    tgt = None
+                    if d:
+                        if d.startswith('self.') and ci is not None and d.count('.') == 1:
+                            r = repo.find_method(ci, d.split('.')[1])
+                            tgt = r[1] if r else None
+                        else:
+                            try:
+                                r = repo.resolve_in_func(m, fn, d)
+                            except Exception:
+                                r = None
+                            tgt = getattr(r, 'node', None)
+                    if isinstance(tgt, (ast.FunctionDef,)):
+                        own = [x for x in ast.walk(tgt) if isinstance(x, (ast.Yield, ast.YieldFrom))]
+                        inner = {id(x) for f in ast.walk(tgt) if f is not tgt and isinstance(f, (ast.FunctionDef, ast.Lambda)) for x in ast.walk(f)}
+                        gen = any(id(x) not in inner for x in own)
+                if gen:
+                    cands.setdefault(a.targets[0].id, []).append(a)
+        if not cands:
+            continue
+        parents = m.parents()
+        for name, defs in sorted(cands.items()):
+            # all definitions of the name must be generators (otherwise the name is re-used for something else)
+            alldefs = [a for a in ast.walk(fn) if isinstance(a, ast.Assign) and any(isinstance(t, ast.Name) and t.id == name for t in a.targets)]
+            if len(alldefs) != len(defs):
+                continue
+            uses = [x for x in ast.walk(fn) if isinstance(x, ast.Name) and x.id == name and isinstance(x.ctx, ast.Load)]
+            # cheap inspections do not consume
+            real = []
+            for u in uses:
+                pp = parents.get(u)
+                if isinstance(pp, ast.Compare) and any(isinstance(o, (ast.Is, ast.IsNot)) for o in pp.ops):
+                    continue
+                if isinstance(pp, ast.Call) and call_name(pp) in ('isinstance', 'id', 'type'):
+                    continue
+                real.append(u)
+            n += 1
+            clash = None
+            for i in range(len(real)):
+                for j in range(i + 1, len(real)):
+                    if not _exclusive(parents, real[i], real[j], fn):
+                        clash = (real[i], real[j])
+                        break
+                if clash:
+                    break
+            in_loop = None
+            if clash is None:
+                for u in real:
+                    cur = u
+                    while cur in parents and cur is not fn:
+                        cur = parents[cur]
+                        if isinstance(cur, (ast.For, ast.While)) and all(d_.lineno < cur.lineno for d_ in defs):
+                            # consumed inside a loop that starts after the definition: once per iteration
+                            if not (isinstance(cur, ast.For) and cur.iter is u) and not any(u is x for x in ast.walk(getattr(cur, 'iter', ast.Constant(value=None)))):
+                                in_loop = u
+                            break
+            ok = clash is None and in_loop is None
+            qual = (ci.name + '.' if ci else '') + fn.name
+            ctx.ob(rid, f'{m.name}.{qual}:{name}', ok, '' if ok else
+                   (f'`{name}` is a generator (line {defs[0].lineno}) and is consumed at line {clash[0].lineno} and again at line {clash[1].lineno}: the second consumer gets an empty sequence'
+                    if clash else f'`{name}` is a generator (line {defs[0].lineno}) and is consumed inside a loop (line {in_loop.lineno}): empty from the second iteration on'),
+                   m.rel, (clash[1].lineno if clash else (in_loop.lineno if in_loop is not None else defs[0].lineno)))
+    return n
+
+
 FLOORS = {   # (z_fwd, z_drop, z_pair): about two thirds of the instances confirmed on the tree the rules were armed on
     'C01': (7, 40, 11),
     'C02': (4, 55, 8),
@@ -650,11 +771,12 @@ def apply(ctx, pid: str, only=None):
         'z_get': lambda: lookup_truthiness_rule(ctx, f'{pid}.z_get', pid, floor=0),
         'z_ctor': lambda: constructor_purity_rule(ctx, f'{pid}.z_ctor', pid, floor=1),
         'z_opt': lambda: optional_argument_purity_rule(ctx, f'{pid}.z_opt', pid, floor=0),
+        'z_gen': lambda: single_use_generator_rule(ctx, f'{pid}.z_gen', pid, floor=0),
     }
     out = {}
     for k, f in rules.items():
         if only is None or k in only:
             out[k] = f()
     ctx.decided.append(f'{pid}.z_* general rules on the functions attributed to this property: sibling calls forward the same parameters (z_fwd), a wrapper does not swallow an option its '
-                       'callee accepts (z_drop), positional pairing only over ordered collections (z_pair), presence of a key is not tested by truthiness of the value (z_get), constructors do not mutate their arguments (z_ctor), optional option bags are inputs only (z_opt)')
+                       'callee accepts (z_drop), positional pairing only over ordered collections (z_pair), presence of a key is not tested by truthiness of the value (z_get), constructors do not mutate their arguments (z_ctor), optional option bags are inputs only (z_opt), generators are consumed once (z_gen)')
     return out
